@@ -173,6 +173,7 @@ class GroupPipe:
         # kept in self.abstracted[abs name] so that obligations can be stated about it (compositional cut)
         self.abstract = tuple(abstract)
         self.abstracted = {}
+        self.root = root
         top = prob.model if not root else prob.model._get_subsystem(root)
         self.leaves = []
         for s in top.system_iter(recurse=True, include_self=False):
@@ -189,6 +190,11 @@ class GroupPipe:
 
     def encode(self, rep):
         for s in self.leaves:
+            if type(s).__module__.startswith("openaerostruct"):
+                rep.encode(type(s))
+        # the groups whose setup() produced the wiring that is being executed
+        top = self.model if not self.root else self.model._get_subsystem(self.root)
+        for s in [top] + list(top.system_iter(recurse=True, include_self=False, typ=__import__("openmdao.api", fromlist=["Group"]).Group)):
             if type(s).__module__.startswith("openaerostruct"):
                 rep.encode(type(s))
 
